@@ -39,18 +39,28 @@ pub fn adversarial(seed: u64, idx: usize, thorough: bool) -> (Vec<u8>, &'static 
     let shape = |rng: &mut Rng, default: crate::c18::Shape| if extreme { default } else { [crate::c18::Shape::Arrays, crate::c18::Shape::Maps, crate::c18::Shape::Alternating, crate::c18::Shape::Random(rng.next())][rng.below(4)] };
     match idx % 17 {
         16 => {
-            // UTF-16/32 YAML whose UTF-8 re-encoding puts multi-byte characters on every
-            // alignment around the 8 KiB / 16 KiB / 32 KiB read sizes of the layers below
-            let boundary = *rng.pick(&[8192usize, 16384, 24576, 32768]);
-            let pad = boundary - 20 + (idx / 17) % 24;
-            let unit = *rng.pick(&["😀", "é", "中", "😀é", "a😀"]);
-            let text = format!("k: \"{}{}\"\n", "x".repeat(pad.saturating_sub(4)), unit.repeat(12));
-            if (idx / 17) % 3 == 2 {
+            // UTF-16/32 YAML whose UTF-8 re-encoding puts multi-byte characters across the 8 KiB / 16 KiB /
+            // 24 KiB / 32 KiB read sizes of the layers below: ONE text crosses all four boundaries, each at
+            // its own offset, and (unit, offset) are enumerated by the instance number, not drawn
+            if instance % 3 == 2 {
                 // plain UTF-8 as well: libyaml itself keeps the lead bytes of a straddled character
-                return (corpus::boundary_yaml_text(idx / 17).into_bytes(), "reencoded_boundary");
+                return (corpus::boundary_yaml_text(instance).into_bytes(), "reencoded_boundary");
             }
-            let enc = crate::c07::ENCS[(idx / 17) % 4];
-            (enc.encode(&text, (idx / 68) % 2 == 0), "reencoded_boundary")
+            let units = ["\u{1f600}", "\u{e9}", "\u{4e2d}", "\u{1f600}\u{e9}", "a\u{1f600}"];
+            let unit = units[instance % 5];
+            let mut text = String::from("k: \"");
+            for (k, boundary) in [8192usize, 16384, 24576, 32768].iter().enumerate() {
+                let off = (instance / 5 + 6 * k) % 24;
+                let start = boundary - 20 + off;
+                if text.len() < start {
+                    text.push_str(&"x".repeat(start - text.len()));
+                }
+                text.push_str(&unit.repeat(12));
+            }
+            text.push_str(&"y".repeat(9000));
+            text.push_str("\"\n");
+            let enc = crate::c07::ENCS[instance % 4];
+            (enc.encode(&text, (instance / 4) % 2 == 0), "reencoded_boundary")
         }
         0 => {
             let sh = shape(&mut rng, crate::c18::Shape::Arrays);
